@@ -60,6 +60,16 @@ static void run_case(const Geom &g, const Opt &o, bool emit, int big_threshold) 
   out.begin("RT").i("case", n_cases).s("gt", g.is_mesh ? "mesh" : "pc").s("shape", g.shape).s("m", m).i("sub", o.submethod).i("es", o.es).i("ds", o.ds)
       .b("builtin", o.builtin).i("split", o.split).i("pred", o.pred).arr("qbits", o.qbits).b("expert", o.expert)
       .b("eok", e1.ok).s("err", e1.err).i("bytes", (long long)e1.bytes.size());
+  {  // input class flag: two points with identical value indices in every attribute (points not deduplicated; finding F10)
+    std::set<std::vector<uint32_t>> seen;
+    bool dup = false;
+    for (PointIndex p(0); p < in.num_points() && !dup; ++p) {
+      std::vector<uint32_t> t;
+      for (int a = 0; a < in.num_attributes(); ++a) t.push_back(in.attribute(a)->mapped_index(p).value());
+      dup = !seen.insert(t).second;
+    }
+    out.b("dup_points", dup);
+  }
   out.raw("h_enc1", h64(vrt::fnv1a(e1.bytes.data(), e1.bytes.size()))).raw("h_enc2", h64(vrt::fnv1a(e2.bytes.data(), e2.bytes.size())));
   Decoded d1, d2, dt, ds;
   const std::vector<char> before = e1.bytes;
